@@ -71,11 +71,19 @@ func NewDynamicFeeChecker(k DynamicFeeEVMKeeper) anteutils.TxFeeChecker {
 		// calculate the effective gas price using the EIP-1559 logic.
 		effectivePrice := sdkmath.NewIntFromBigInt(evmtypes.EffectiveGasPrice(baseFeeInt.BigInt(), feeCap.BigInt(), maxPriorityPrice.BigInt()))
 
+		// the fee cap is the declared fee divided by the gas limit, rounded down: when the cap itself is the
+		// effective price the declared fee is what is owed (cap x gas would drop fee mod gas and could fall
+		// below the gas limit x minimum gas price that the declared fee was checked against)
+		effectiveAmount := effectivePrice.Mul(sdkmath.NewIntFromUint64(gas))
+		if effectivePrice.Equal(feeCap) {
+			effectiveAmount = fee
+		}
+
 		// NOTE: create a new coins slice without having to validate the denom
 		effectiveFee := sdk.Coins{
 			{
 				Denom:  denom,
-				Amount: effectivePrice.Mul(sdkmath.NewIntFromUint64(gas)),
+				Amount: effectiveAmount,
 			},
 		}
 
